@@ -245,18 +245,19 @@ theorem duplicate_ignored (chk : Bytes → Bool) (r : Rules) (maxlen : Nat) (n :
     (h : mid ∈ n.known) : recvDatagram chk r maxlen n mid m = (n, none) :=
   recvDatagram_of_known chk r maxlen n mid m h
 
-/-- **… and an id stays remembered for the next `maxlen - 1` datagrams**: after a datagram with id `mid` was received,
-    a second one with the same id, arriving after fewer than `maxlen` other datagrams (whatever their ids and content),
-    is ignored — so every id is acted on at most once while inside the window. -/
+/-- **… and an id stays remembered while fewer than `maxlen` further ids are registered**: after a datagram with id
+    `mid` was acted on, a second one with the same id arriving after fewer than `maxlen` other events (datagrams with
+    whatever ids and content, own messages queued for sending, in any interleaving) is ignored — every id is acted on at
+    most once while inside the window. -/
 theorem acted_on_once_within_window (chk : Bytes → Bool) (r : Rules) (maxlen : Nat) (n : Node) (mid : String)
-    (m m' : Msg) (ds : List (String × Msg)) (hnew : mid ∉ n.known) (hlen : 1 + ds.length ≤ maxlen) :
+    (m m' : Msg) (es : List NodeEv) (hnew : mid ∉ n.known) (hlen : 1 + es.length ≤ maxlen) :
     let n1 := (recvDatagram chk r maxlen n mid m).1
-    let n2 := recvAll chk r maxlen n1 ds
+    let n2 := runNode chk r maxlen n1 es
     recvDatagram chk r maxlen n2 mid m' = (n2, none) := by
   intro n1 n2
   apply recvDatagram_of_known
-  show mid ∈ (recvAll chk r maxlen n1 ds).known
-  rw [recvAll_known]
+  show mid ∈ (runNode chk r maxlen n1 es).known
+  rw [runNode_known]
   have h1 : n1.known = UdpRepeat.push maxlen mid n.known := by
     show (recvDatagram chk r maxlen n mid m).1.known = _
     rw [recvDatagram_known]
@@ -268,6 +269,23 @@ theorem acted_on_once_within_window (chk : Bytes → Bool) (r : Rules) (maxlen :
     rw [List.take_take]
     simp [Nat.min_eq_left this]
   exact UdpRepeat.run_keeps maxlen mid _ _ 1 h0 (by simpa using hlen)
+
+/-- **Own messages are ignored.** After an own message (answer, Hello, Probe, Resolve) was queued, its id is remembered in
+    the same window: when multicast loops it back after fewer than `maxlen` other events it is not acted on. -/
+theorem own_message_ignored (chk : Bytes → Bool) (r : Rules) (maxlen : Nat) (n : Node) (id : String) (m : Msg)
+    (es : List NodeEv) (hlen : 1 + es.length ≤ maxlen) :
+    let n2 := runNode chk r maxlen (registerOwn maxlen n id) es
+    recvDatagram chk r maxlen n2 id m = (n2, none) := by
+  intro n2
+  apply recvDatagram_of_known
+  show id ∈ (runNode chk r maxlen (registerOwn maxlen n id) es).known
+  rw [runNode_known]
+  have h0 : id ∈ (registerOwn maxlen n id).known.take 1 := by
+    have : 1 ≤ maxlen := by omega
+    simp only [registerOwn, UdpRepeat.step, UdpRepeat.push]
+    rw [List.take_take]
+    simp [Nat.min_eq_left this]
+  exact UdpRepeat.run_keeps maxlen id _ _ 1 h0 (by simpa using hlen)
 
 /-! ### non-vacuity -/
 
@@ -302,6 +320,12 @@ example : (run (fun _ => true) { Generated.Discovery.rules with allowMissingApp 
      .hello true { exA with mv := 2, types := none, xaddrs := [[104], [105]] }, .bye [98], .hello false { exA with mv := 9 }]).remote.get [97]
     = some { exA with mv := 2, xaddrs := [[104], [105]] } := by decide
 example : (recvDatagram (fun _ => true) Generated.Discovery.rules 200 ⟨["id1"], State.empty⟩ "id1" (.hello true exA)).2 = none := by
+  decide
+/-- window of 2: own id, one datagram, then the looped-back own id is skipped; after one more event it is forgotten -/
+example : (recvDatagram (fun _ => true) Generated.Discovery.rules 2
+    (runNode (fun _ => true) Generated.Discovery.rules 2 (registerOwn 2 ⟨[], State.empty⟩ "own") [.dg "a" .unknown]) "own" .unknown).2 = none ∧
+  (recvDatagram (fun _ => true) Generated.Discovery.rules 2
+    (runNode (fun _ => true) Generated.Discovery.rules 2 (registerOwn 2 ⟨[], State.empty⟩ "own") [.dg "a" .unknown, .own "b"]) "own" .unknown).2 = some (.ok []) := by
   decide
 
 end Sdc.C14
